@@ -11,8 +11,11 @@ while [ $# -gt 0 ]; do case "$1" in
   *) echo "unknown arg $1"; exit 2;; esac; done
 [ -n "$SCRATCH" ] || SCRATCH="/var/tmp/vmut-$$"
 mkdir -p "$SCRATCH"
-rsync -a --delete --exclude target --exclude .git /repo/ "$SCRATCH/repo/"
-rsync -a --delete --exclude 'target*' --exclude '.build-*' "$HSRC/" "$SCRATCH/harness/"
+# content-based sync without preserving mtimes: a file restored after a previous patch gets a fresh
+# mtime, so cargo rebuilds exactly the crates whose sources changed (and never keeps a stale mutation)
+rsync -rlp --checksum --delete --exclude target --exclude .git /repo/ "$SCRATCH/repo/"
+rsync -rlp --checksum --delete --exclude 'target*' --exclude '.build-*' --exclude Cargo.toml "$HSRC/" "$SCRATCH/harness/"
+cp "$HSRC/Cargo.toml" "$SCRATCH/harness/Cargo.toml"
 sed -i "s#/repo/#$SCRATCH/repo/#g" "$SCRATCH/harness/Cargo.toml"
 ( cd "$SCRATCH/repo" && patch -p1 --no-backup-if-mismatch < "$PATCH" ) || { echo "SELFTEST-ERROR: patch did not apply"; exit 2; }
 export VERIF_DEV=1 VERIF_HARNESS_DIR="$SCRATCH/harness" VERIF_STATE_DIR="$SCRATCH/state"
